@@ -62,7 +62,19 @@ FieldIx(sn, sg) ==
 (***************************************************************************)
 (* Concrete syntax (the path string handed to the real library).           *)
 (***************************************************************************)
-RenderElem(e) == CASE e.t = "int" -> ToString(e.n)
+(* Integers beyond TLC's 32 bits are symbolic: the codes below stand for    *)
+(* the decimal numbers IntStr gives; to the spec they are just further      *)
+(* distinct integer keys / indexes (their order is the numeric one).       *)
+Big31m == 1000001    \* 2147483647  = 2^31 - 1
+Big31 == 1000002     \* 2147483648  = 2^31
+Big32p2 == 1000003   \* 4294967298  = 2^32 + 2 (its low 32 bits are 2)
+BigNeg == -1000003   \* -4294967298 (queries only: a path cannot spell a negative number)
+IntStr(n) == CASE n = Big31m -> "2147483647"
+               [] n = Big31 -> "2147483648"
+               [] n = Big32p2 -> "4294967298"
+               [] n = BigNeg -> "-4294967298"
+               [] OTHER -> ToString(n)
+RenderElem(e) == CASE e.t = "int" -> IntStr(e.n)
                    [] e.t = "str" -> "\"" \o e.s \o "\""
                    [] e.t = "any" -> "*"
                    [] OTHER -> e.s
